@@ -151,23 +151,14 @@ Theorem C08_pfd_rollback : forall old req t, handle_pfd old req = (t, false) -> 
 Proof. exact pfd_rollback. Qed.
 Print Assumptions C08_pfd_rollback.
 
-(* accepted: the table is rebuilt from the request alone (nothing of the old table survives) ... *)
-Theorem C08_pfd_replace_first_context : forall old req t,
-  handle_pfd old req = (t, true) -> t = table_first req [].
+(* accepted: the table afterwards is exactly the table the request carries (per application, in
+   order, the flow descriptions of ALL its PFD Contexts; a later IE for the same id wins) - nothing
+   of the previous table survives, nothing of the request is lost.  Full since fix 956e246
+   (before it, later PFD Contexts were dropped: former finding F0801). *)
+Theorem C08_pfd_replace : forall old req t,
+  handle_pfd old req = (t, true) -> t = table_of req [].
 Proof. exact pfd_replace. Qed.
-Print Assumptions C08_pfd_replace_first_context.
-
-(* ... but it is NOT the table the request carries: flow descriptions in the second and later PFD
-   Context IEs of an application are dropped (the handler reads only the first one) *)
-Theorem C08_pfd_replace_refuted :
-  exists old req t, handle_pfd old req = (t, true) /\ t <> table_all req [].
-Proof. exact pfd_replace_refuted. Qed.
-Print Assumptions C08_pfd_replace_refuted.
-
-Theorem C08_pfd_replace_partial : forall old req t, Forall single_ctx req ->
-  handle_pfd old req = (t, true) -> t = table_all req [].
-Proof. exact pfd_replace_single. Qed.
-Print Assumptions C08_pfd_replace_partial.
+Print Assumptions C08_pfd_replace.
 
 Theorem C08_pfd_accept_iff : forall old req,
   snd (handle_pfd old req) = true <-> forallb app_ok req = true.
@@ -233,8 +224,19 @@ Example C08_ex_malformed_pdr :
 Proof. split; vm_compute; reflexivity. Qed.
 
 Example C08_ex_pfd :
-  handle_pfd [(K "old", [K "x y"])] [AppIE (Some (K "a")) [[Some (K "permit in ip from any to assigned")]]] =
+  handle_pfd [(K "old", [K "x y"])] [AppIE (Some (K "a")) [Some [Some (K "permit in ip from any to assigned")]]] =
     ([(K "a", [K "permit in ip from any to assigned"])], true) /\
-  handle_pfd [(K "old", [K "x y"])] [AppIE (Some (K "a")) [[Some (K "permit in ip from any to assigned"); Some []]]] =
+  handle_pfd [(K "old", [K "x y"])] [AppIE (Some (K "a")) [Some [Some (K "permit in ip from any to assigned"); Some []]]] =
     ([(K "old", [K "x y"])], false).
 Proof. split; vm_compute; reflexivity. Qed.
+
+(* several PFD Contexts per application: all provisioned, in order; an unreadable later one rejects *)
+Example C08_ex_pfd_contexts :
+  handle_pfd [] req2 = ([(K "app1", [K "permit in ip from any to assigned"; K "permit out udp from 1.2.3.4 80 to assigned"])], true)
+  /\ parse_pdr Access 167772161 (fst (handle_pfd [] req2)) [IApp (Some (K "app1"))] =
+     Accepted (AF 16909060 167772161 (PR 80 80) (PR 0 65535) 17 4294967295 4294967295 255).
+Proof. exact pfd_two_contexts. Qed.
+
+Example C08_ex_pfd_unreadable_context : forall old,
+  handle_pfd old [AppIE (Some (K "app1")) [Some [Some (K "permit in ip from any to assigned")]; None]] = (old, false).
+Proof. exact pfd_unreadable_context. Qed.
